@@ -393,7 +393,8 @@ class QConn:
         frames = other_before
         for i, (sid, off, data, fin) in enumerate(chunks):
             last = i == len(chunks) - 1 and not other_after
-            frames += f_stream(sid, off, data, fin=fin, explicit_len=(explicit_len or not last), w=w)
+            wd = w if w is None or max(len(data), off, sid) < (1 << (8 * w - 2)) else None      # forced varint width must fit
+            frames += f_stream(sid, off, data, fin=fin, explicit_len=(explicit_len or not last), w=wd)
         frames += other_after
         if len(frames) < 4:
             frames = b"\0" * (4 - len(frames)) + frames        # PADDING goes first: a STREAM frame without length runs to the end
@@ -481,6 +482,8 @@ def random_connection(rng, idx=0, v6=None, suite=None, features=None):
     f.setdefault("prefix_cid", rng.random() < 0.08 and not f["retry"])
     f.setdefault("long", False)
     f.setdefault("reorder", rng.random() < 0.2)
+    # one datagram far above the usual MTU (loopback / GRO captures; max_udp_payload_size allows up to 65527)
+    f.setdefault("jumbo", rng.random() < 0.1)
     # both endpoints happen to choose the same connection-ID bytes (each picks its own, RFC 9000 5.1; 1-byte CIDs collide
     # once in 256 connections); not combined with Retry / NEW_CONNECTION_ID / prefix-related CIDs to keep the case pure
     f.setdefault("same_cid", rng.random() < 0.06 and not f["retry"] and not f["new_cid"] and not f["prefix_cid"])
@@ -537,6 +540,8 @@ def random_connection(rng, idx=0, v6=None, suite=None, features=None):
         for _ in range(rng.choice([0, 1, 1, 1, 2, 3])):
             sid = rng.choice([0, 4, 8, 3, 2]) if not d else rng.choice([0, 4, 1, 3, 7])
             data = rng.randbytes(rng.choice([0, 1, 5, 50, 300, 1100]) if rng.random() < 0.3 else rng.randrange(1, 200))
+            if f["jumbo"] and i == n // 2 and not chunks:
+                data = rng.randbytes(rng.randrange(20000, 45000))
             off = offs.get((d, sid), 0)
             offs[(d, sid)] = off + len(data)
             chunks.append((sid, off, data, rng.random() < 0.1))
